@@ -22,8 +22,30 @@ func c14(c *core.Ctx) {
 	c.NotCovered = []string{"mutual exclusion, FIFO and liveness over all interleavings (model-checking question)", "timer accuracy"}
 
 	callers := p.MustField(pkgLock, "queue", "callers")
-	enq := c.Fn(pkgLock + ".queue.enqueue")
+	_ = c.Fn(pkgLock + ".queue.enqueue")
 	rem := c.Fn(pkgLock + ".queue.remove")
+	// removers: functions of the lock package that take a caller out of a queue by id (an "index"
+	// removal of queue.callers whose element id is compared with a string parameter). The rules about
+	// who may call what are stated over this set, not over the name "remove".
+	removers := map[*core.Func]bool{rem: true}
+	for _, g := range p.FuncsIn(pkgLock) {
+		if g.Decl.Body == nil || g == rem {
+			continue
+		}
+		gi := g.Info()
+		gfl := core.NewFlow(p, gi, g.Decl.Body)
+		for _, a := range core.Accesses(gi, g.Decl.Body, map[*types.Var]bool{callers: true}, false) {
+			if a.Write {
+				if r := queueRemovalOf(gi, g.Decl.Body, gfl, a, callers); r.kind == "index" {
+					removers[g] = true
+				}
+			}
+		}
+	}
+	isRemoverCall := func(info *types.Info, call *ast.CallExpr) bool {
+		t := p.ByObj[core.Callee(info, call)]
+		return t != nil && removers[t]
+	}
 	lockFn := c.Fn(pkgLock + ".lock.Lock")
 	unlockFn := c.Fn(pkgLock + ".lock.Unlock")
 
@@ -190,11 +212,17 @@ func c14(c *core.Ctx) {
 				}
 				construct := f.Key + ":callers:" + a.Form
 				switch {
-				case f == enq && a.Form == "append":
+				case a.Form == "append" && isTailAppend(info, a.Node, callers):
 					rOwner.Ok(construct, a.Node.Pos(), "tail append")
-				case f == rem:
+				case removers[f] || f == rem:
 					// which element leaves the queue with this write, and is it the one whose id was matched
-					idParam := paramObj(rem, 0)
+					var idParam types.Object
+					fsig := f.Obj.Type().(*types.Signature)
+					for pi := 0; pi < fsig.Params().Len(); pi++ {
+						if b, isB := fsig.Params().At(pi).Type().Underlying().(*types.Basic); isB && b.Kind() == types.String {
+							idParam = fsig.Params().At(pi)
+						}
+					}
 					rmv := queueRemovalOf(info, body, fl, a, callers)
 					switch rmv.kind {
 					case "none":
@@ -219,6 +247,160 @@ func c14(c *core.Ctx) {
 				default:
 					rOwner.Bad(construct, a.Node.Pos(), "unexpected mutation of the lock queue outside enqueue/remove")
 				}
+			}
+		}
+	}
+
+	// C14.wake: whoever takes the head out of a non-empty queue grants the next caller.
+	rWake := c.Rule("C14.wake", "every function that removes a caller from a lock queue grants the new head on every path on which the removed caller may have been the head and somebody is still queued: from the removal to each exit the path passes close(callers[0].ready) unless a branch established that the removed index was not 0 or that the queue is empty. A waiter can become head at any moment (the holder's release may land between its cancellation and its removal), so a removal that never grants strands the queue: no holder, no watchdog, every later Lock on the key blocks forever", 1)
+	for g := range removers {
+		gi := g.Info()
+		for bi, body := range core.Bodies(g.Decl) {
+			gfl := core.NewFlow(p, gi, body)
+			for _, a := range core.Accesses(gi, body, map[*types.Var]bool{callers: true}, false) {
+				if !a.Write {
+					continue
+				}
+				rmv := queueRemovalOf(gi, body, gfl, a, callers)
+				if rmv.kind != "index" {
+					continue
+				}
+				loc, ok := gfl.Locate(a.Node)
+				if !ok {
+					continue
+				}
+				// edges on which no grant is needed
+				var safe func(e ast.Expr, truth bool) bool
+				safe = func(e ast.Expr, truth bool) bool {
+					e = core.Unparen(e)
+					switch v := e.(type) {
+					case *ast.Ident:
+						if def := localDef(gi, body, gi.Uses[v]); def != nil {
+							return safe(def, truth)
+						}
+					case *ast.UnaryExpr:
+						if v.Op == token.NOT {
+							return safe(v.X, !truth)
+						}
+					case *ast.BinaryExpr:
+						switch v.Op {
+						case token.LAND:
+							if truth {
+								return safe(v.X, true) || safe(v.Y, true)
+							}
+							return safe(v.X, false) && safe(v.Y, false)
+						case token.LOR:
+							if truth {
+								return safe(v.X, true) && safe(v.Y, true)
+							}
+							return safe(v.X, false) || safe(v.Y, false)
+						}
+						op := v.Op
+						if !truth {
+							op = core.Negate(op)
+						}
+						x, y := v.X, v.Y
+						if isConst(gi, x, 0) || isConst(gi, x, 1) {
+							x, y, op = y, x, mirror(op)
+						}
+						// queue empty
+						if lenOfField(gi, x, callers) {
+							if isConst(gi, y, 0) && (op == token.EQL || op == token.LEQ) {
+								return true
+							}
+							if isConst(gi, y, 1) && op == token.LSS {
+								return true
+							}
+						}
+						// removed index is not the head
+						if !rmv.const0 && rmv.idx != nil {
+							if xo, io := core.ObjOf(gi, x), core.ObjOf(gi, rmv.idx); xo != nil && xo == io {
+								if isConst(gi, y, 0) && (op == token.NEQ || op == token.GTR) {
+									return true
+								}
+								if isConst(gi, y, 1) && op == token.GEQ {
+									return true
+								}
+							}
+						}
+					}
+					return false
+				}
+				cut := map[core.Edge]bool{}
+				for b := range gfl.G.Blocks {
+					cond := gfl.CondOf(b)
+					if cond == nil {
+						continue
+					}
+					for si := 0; si < 2; si++ {
+						if safe(cond, si == 0) {
+							cut[core.Edge{From: b, Succ: si}] = true
+						}
+					}
+				}
+				// a removal that happens inside a loop starting at index 1 (or on a branch that already
+				// established idx != 0) is covered by the facts at the removal itself
+				notHeadHere := false
+				for _, ft := range gfl.CondsAt(loc) {
+					if safe(ft.Expr, ft.Truth) {
+						notHeadHere = true
+					}
+				}
+				// the removed index is the variable of a counting loop that starts at 1 or later
+				if !notHeadHere && !rmv.const0 && rmv.idx != nil {
+					if io := core.ObjOf(gi, rmv.idx); io != nil {
+						ast.Inspect(body, func(x ast.Node) bool {
+							fs, isFor := x.(*ast.ForStmt)
+							if !isFor || fs.Init == nil || fs.Post == nil {
+								return true
+							}
+							init, ok1 := fs.Init.(*ast.AssignStmt)
+							post, ok2 := fs.Post.(*ast.IncDecStmt)
+							if !ok1 || !ok2 || len(init.Lhs) != 1 || len(init.Rhs) != 1 || post.Tok != token.INC {
+								return true
+							}
+							id, isId := init.Lhs[0].(*ast.Ident)
+							if !isId || gi.Defs[id] != io || core.ObjOf(gi, post.X) != io {
+								return true
+							}
+							start, isC := core.ConstInt(gi, init.Rhs[0])
+							if !isC || start < 1 {
+								return true
+							}
+							reassigned := false
+							ast.Inspect(fs.Body, func(y ast.Node) bool {
+								switch v := y.(type) {
+								case *ast.AssignStmt:
+									for _, l := range v.Lhs {
+										if core.ObjOf(gi, l) == io {
+											reassigned = true
+										}
+									}
+								case *ast.IncDecStmt:
+									if core.ObjOf(gi, v.X) == io {
+										reassigned = true
+									}
+								}
+								return true
+							})
+							if !reassigned && fs.Body.Pos() <= a.Node.Pos() && a.Node.End() <= fs.Body.End() {
+								notHeadHere = true
+							}
+							return true
+						})
+					}
+				}
+				grants := core.NodeHasCall(func(call *ast.CallExpr) bool {
+					if !isBuiltinCall(gi, call, "close") || len(call.Args) != 1 || core.FieldOf(gi, call.Args[0]) != readyF {
+						return false
+					}
+					sel := core.Unparen(call.Args[0]).(*ast.SelectorExpr)
+					ix, isIx := core.Unparen(sel.X).(*ast.IndexExpr)
+					return isIx && core.FieldOf(gi, ix.X) == callers && isConst(gi, ix.Index, 0)
+				})
+				stranded := !notHeadHere && gfl.ExitWithout(loc, cut, false, grants)
+				rWake.Check(!stranded, fmt.Sprintf("%s:body%d:%s:grants-next-head", g.Key, bi, a.Form), a.Node.Pos(), "every path after the removal grants callers[0] or knows that the removed caller was not the head / the queue is empty",
+					"a caller is removed here ("+rmv.why+") and the function can return without granting the new head although the removed caller may have been the head of a non-empty queue: the key is left without holder and without watchdog, every later Lock on it blocks until its context ends")
 			}
 		}
 	}
@@ -258,7 +440,7 @@ func c14(c *core.Ctx) {
 				removesOwn := func(n ast.Node) bool {
 					found := false
 					core.Calls(n, true, func(call *ast.CallExpr) {
-						if core.IsWsCallTo(info, call, rem.Key) && len(call.Args) == 1 && core.ObjOf(info, call.Args[0]) == lockIDObj {
+						if isRemoverCall(info, call) && len(call.Args) == 1 && core.ObjOf(info, call.Args[0]) == lockIDObj {
 							found = true
 						}
 					})
@@ -361,7 +543,7 @@ func c14(c *core.Ctx) {
 		// Unlock
 		uinfo := unlockFn.Info()
 		idParam := paramObj(unlockFn, 1)
-		calls := core.FindCalls(unlockFn.Decl.Body, false, func(call *ast.CallExpr) bool { return core.IsWsCallTo(uinfo, call, rem.Key) })
+		calls := core.FindCalls(unlockFn.Decl.Body, false, func(call *ast.CallExpr) bool { return isRemoverCall(uinfo, call) })
 		ok := len(calls) == 1 && len(calls[0].Args) == 1 && core.ObjOf(uinfo, calls[0].Args[0]) == idParam
 		// result must be tested: the call appears inside an if condition (negated) that returns an error
 		tested := false
@@ -919,4 +1101,18 @@ func isQueueElem(info *types.Info, body ast.Node, e ast.Expr, field *types.Var, 
 		return true
 	})
 	return found
+}
+
+// isTailAppend: f = append(f, x...) with the plain field as first argument.
+func isTailAppend(info *types.Info, n ast.Node, field *types.Var) bool {
+	as, ok := n.(*ast.AssignStmt)
+	if !ok || len(as.Rhs) != 1 {
+		return false
+	}
+	call, ok := core.Unparen(as.Rhs[0]).(*ast.CallExpr)
+	if !ok || !isBuiltinCall(info, call, "append") || len(call.Args) < 2 {
+		return false
+	}
+	sel, ok := core.Unparen(call.Args[0]).(*ast.SelectorExpr)
+	return ok && core.FieldOf(info, sel) == field
 }
